@@ -25,7 +25,7 @@ ASSUMPTIONS = [
     "virtual clock: asyncio timers fire in deadline order exactly as on a real clock; wall time is only a watchdog",
     "one caller at a time (concurrency is C06)",
 ]
-MUST = ["retry_branch", "max_retries_branch", "fragment_rearm", "immediate_retry_invalid", "tcp_connect_error",
+MUST = ["stale_datagram_while_idle", "retry_branch", "max_retries_branch", "fragment_rearm", "immediate_retry_invalid", "tcp_connect_error",
         "connect_hang_bounded", "silent_exact", "success", "rejected"]
 EXHAUSTIVE = {"quick": True, "thorough": True}
 
@@ -66,6 +66,15 @@ def scenario_then_silent(transport, framing, ka, T, R, script):
             "tasks": [{"start": 0.0, "steps": [["read", 100, 2], ["read", 101, 2]]}]}
 
 
+def scenario_idle_garbage(transport, framing, ka, T, R, D, hops=0):
+    """request 1 is answered at once; a corrupted copy of that answer arrives D later, exactly when the caller (who slept D) issues
+    request 2, which meets a silent peer: the stale datagram must not cost request 2 a transmission."""
+    return {"transport": transport, "framing": framing, "keep_alive": ka, "T": T, "R": R,
+            "by_reg": {100: [["nowbad", D, hops]], 101: []}, "after": "drop", "fullscript": [["nowbad", D, hops]],
+            "then_silent": True, "send_faults": {}, "connect": [],
+            "tasks": [{"start": 0.0, "steps": [["read", 100, 2], ["sleep", D], ["read", 101, 2]]}]}
+
+
 def _strip_tx(sc, data: bytes):
     return data[2:] if sc["framing"] == "tcp" else data
 
@@ -80,6 +89,8 @@ def check_run(sc, run, part: Part = None):
         return out
     eps = 1e-6
     for rec in run.calls:
+        if rec["step"][0] in ("sleep", "close", "arm_send_fault", "peerdrop"):
+            continue
         evs = engine.events_of_call(run, rec["id"])
         txs = [e for e in evs if e[1] == "tx"]
         deliveries = [e for e in evs if e[1] in ("rx", "rxerr", "eof")]
@@ -117,7 +128,8 @@ def check_run(sc, run, part: Part = None):
             all(c == "ok" or (isinstance(c, (list, tuple)) and c[0] == "ok") for c in sc.get("connect", [])) and \
             len(run.calls) == 1 and not sc.get("send_faults")
         if sc.get("then_silent"):
-            silent = rec["step"][1] == 101
+            # (a stale datagram delivered while request 2 is in flight counts as its - corrupted - answer: not silent then)
+            silent = rec["step"][0] == "read" and rec["step"][1] == 101 and not deliveries
         if silent:
             want = [round(rec["t0"] + k * T, 9) for k in range(R + 1)]
             got = [e[0] for e in txs]
@@ -226,6 +238,10 @@ def run_shard(spec):
         for d in range(1, min(R + 1, 3) + 1):
             for script in itertools.product(alpha, repeat=d):
                 run_case(scenario_then_silent(spec["transport"], spec["framing"], spec["ka"], spec["T"], R, list(script)), part)
+        for D in (0.0, 0.5, 1.0, 2.5):
+            for hops in range(0, 8):        # arrival phase of the stale datagram relative to the caller's wake-up
+                run_case(scenario_idle_garbage(spec["transport"], spec["framing"], spec["ka"], spec["T"], R, D * spec["T"], hops), part)
+                part.count("stale_datagram_while_idle")
     elif mode == "connect":
         for R in (0, 1, 2, 3):
             for depth in range(1, spec["depth"] + 1):
